@@ -151,9 +151,14 @@ class ARig:
             return orig(offset, segment)
 
         st.replace_status_block_segment = monitor
+        self.client_block = CLIENT_BLOCK
         self.peer.set_block(SPA_BLOCK)
         st.set_status_block(CLIENT_BLOCK)
         self.loop.timer_choices_enabled = True
+
+    def use_blocks(self, spa, client):
+        self.peer.set_block(spa)
+        self.client_block = client
 
     async def _on_event(self, event, **kw):
         self.events.append(event)
@@ -173,7 +178,7 @@ class ARig:
     def transfer(self, start, length, R, settle=1.0, timeout=None):
         st = self.spa.struct
         proto = self.spa._protocol
-        st.set_status_block(CLIENT_BLOCK)
+        st.set_status_block(self.client_block)
         del self.installs[:]
         mark = len(self.net.sent)
 
@@ -262,6 +267,62 @@ def _pairs_job(job):
 
 
 # ------------------------------------------------------------------------------------------
+# (a3) block contents: the framing layer parses datagrams with delimiters, so the one place where the
+# transfer is NOT content-agnostic is a block that contains those delimiters.  Every token the packet
+# layer, the verb dispatch or the text codecs give a meaning to is put at every alignment inside a
+# 39-byte segment (and across a segment boundary).
+
+TOKENS = [b"</DATAS>", b"<DATAS>", b"</PACKT>", b"<PACKT>", b"</SRCCN>", b"<SRCCN>", b"</DESCN>", b"<DESCN>",
+          b"STATV", b"STATU", b"\n", b"\r\n", b"\x00" * 8, b"|", b",", b"</DATAS></PACKT>",
+          b"<PACKT><SRCCN>X</SRCCN><DESCN>Y</DESCN><DATAS>STATV"]
+
+
+def token_block(token, offset):
+    blk = bytearray(SPA_BLOCK)
+    blk[offset:offset + len(token)] = token
+    return bytes(blk[:1024])
+
+
+def tiled_block():
+    blk = bytearray(SPA_BLOCK)
+    o = 5
+    for k, tok in enumerate(TOKENS):
+        blk[o:o + len(tok)] = tok
+        o += len(tok) + 17 + k
+    assert o < 1024
+    return bytes(blk)
+
+
+def _content_job(job):
+    items, kind = job
+    bad = []
+    rig = ARig() if kind == "async" else TClient(Chooser())
+    for ti, off, start, length in items:
+        spa = tiled_block() if ti < 0 else token_block(TOKENS[ti], off)
+        cli = bytes(255 - b for b in spa)
+        rig.use_blocks(spa, cli)
+        if kind == "async":
+            obs = rig.transfer(start, length, R=1, settle=0.3)
+        else:
+            obs = rig.transfer(start, length, N=0, fates=None)
+        why = _judge(obs, start, length, 1, True, before=cli, spa=spa, max_requests=1)
+        if why:
+            bad.append((ti, off, start, length, why))
+    if kind == "async":
+        rig.close()
+    return len(items), bad
+
+
+def _content_items(step):
+    items = [(-1, 0, 0, 1024), (-1, 0, 3, 700)]
+    for ti, tok in enumerate(TOKENS):
+        for a in range(0, SEG, step):
+            items.append((ti, 117 + a, 117, 78 if len(tok) <= SEG else 117))
+        items.append((ti, 500, 0, 1024))
+    return items
+
+
+# ------------------------------------------------------------------------------------------
 # threaded client rig
 
 
@@ -280,6 +341,7 @@ class TClient:
         self.w = stepped.World(chooser)
         self.peer = SimPeer()
         self.peer.set_block(SPA_BLOCK)
+        self.client_block = CLIENT_BLOCK
         self.w.add(self.peer.sim._socket, "sim", SPA_ADDR)
         self.client = GeckoUdpSocket()
         self.w.add(self.client, "client", ("10.0.0.2", 50001))
@@ -294,9 +356,13 @@ class TClient:
 
         self.st.replace_status_block_segment = monitor
 
+    def use_blocks(self, spa, client):
+        self.peer.set_block(spa)
+        self.client_block = client
+
     def transfer(self, start, length, N, fates, horizon=None):
         w, client, st = self.w, self.client, self.st
-        st.set_status_block(CLIENT_BLOCK)
+        st.set_status_block(self.client_block)
         del self.installs[:]
         mark = len(w.engines[1].mock.sent)
         nlog = len(lib.LOG.records)
@@ -540,6 +606,24 @@ def run(ctx):
     nontrivial.update(("pair", p) for p in pairs)
     ctx.log(f"client path fault-free: {len(pairs)} async + {len(tp)} threaded transfers")
 
+    # (a3) block contents made of the framing layer's own delimiters
+    ci_a = _content_items(1)
+    ci_t = _content_items(3 if ctx.quick else 1)
+    jobs = [(c, "async") for c in _split(ci_a, ctx.workers)] + [(c, "threaded") for c in _split(ci_t, ctx.workers)]
+    done = 0
+    for n, bad in core.pimap(ctx, _content_job, jobs):
+        done += n
+        for ti, off, start, length, why in bad:
+            tok = "tiled" if ti < 0 else TOKENS[ti].decode("latin1")
+            ctx.violation(f"C01|content|{why[0]}|token={tok!r}", f"fault-free transfer start={start} length={length} of a "
+                          f"block containing {tok!r} at offset {off}: {why[1]}",
+                          {"mode": "content", "token": ti, "offset": off, "start": start, "length": length})
+    ctx.set("content_transfers", done)
+    ctx.set("content_tokens", len(TOKENS))
+    evals += done
+    nontrivial.update(("content", i) for i in ci_a)
+    ctx.log(f"block contents: {len(TOKENS)} delimiter tokens x alignments: {len(ci_a)} async + {len(ci_t)} threaded transfers")
+
     # (b1) ALL fate vectors on 1..3 segment transfers (unbounded deviations = the whole product)
     plan = [((100, 20), 2, 64), ((985, 39), 2, 64), ((100, 60), 1, 64)] if ctx.quick else [
         ((100, 20), 3, 64), ((985, 39), 3, 64), ((100, 60), 2, 64), ((500, 100), 1, 64), ((500, 100), 2, 3)]
@@ -613,8 +697,9 @@ def run(ctx):
                 "oracle": "True => one install == spa[start:start+n]; False => block untouched; STATU<=R"})
     ctx.sample({"adversary": "always drop segment 13 of the full transfer, R=10", "expect": "False, 10 requests, block untouched"})
     ctx.set("exhaustive", not ctx.caps_hit)
-    ctx.assume("block contents: one pattern block whose neighbouring 39-byte slices all differ, client = complement; "
-               "the transfer code is content-agnostic (slices and joins only)")
+    ctx.assume("block contents: one pattern block whose neighbouring 39-byte slices all differ (all byte values 0..250), "
+               "client = complement, plus blocks carrying each framing/verb delimiter at every alignment in a segment; "
+               "beyond the delimiters the transfer code only slices and joins")
     ctx.assume("delays are bounded below the gap between distinct transfers (as the quantifier says)")
 
 
@@ -638,6 +723,12 @@ def replay(ctx, data):
             for start, length, why in bad:
                 cls = "mult39" if length % SEG == 0 else "other"
                 ctx.violation(f"C01|fault-free|{why[0]}|{cls}", why[1], data)
+    elif mode == "content":
+        for kind in ("async", "threaded"):
+            n, bad = _content_job(([(data["token"], data["offset"], data["start"], data["length"])], kind))
+            for ti, off, start, length, why in bad:
+                tok = "tiled" if ti < 0 else TOKENS[ti].decode("latin1")
+                ctx.violation(f"C01|content|{why[0]}|token={tok!r}", why[1], data)
     elif mode == "fault":
         res = _fault_job(((data["kind"], data["start"], data["length"], data["R"]), [tuple(p) for p in data["prefix"]]))
         ctx.merge_violations(res["violations"])
